@@ -148,7 +148,21 @@ fn assemble(
     let mut steps = vec![];
     let mut links = vec![];
     for (i, p) in plans.iter().enumerate() {
-        let name = format!("s{}", i);
+        // step names that stand in a relation to each other in half of the worlds: each a proper prefix of the next,
+        // differing in letter case only, or dotted extensions of one stem
+        let style = readme.bytes().fold(7u32, |h, b| h.wrapping_mul(31).wrapping_add(b as u32)) % 6;
+        let name = match style {
+            3 => format!("s{}", "0".repeat(i)),
+            4 => match i {
+                0 => "build".to_string(),
+                1 => "Build".to_string(),
+                2 => "BUILD".to_string(),
+                3 => "buiLd".to_string(),
+                _ => format!("build{}", i),
+            },
+            5 => format!("st{}", ".x".repeat(i)),
+            _ => format!("s{}", i),
+        };
         let rules = match cfg.rules {
             RuleMode::None => vec![],
             RuleMode::Permissive => vec![RuleSpec::Allow("*".into())],
